@@ -806,7 +806,7 @@ def rdcards(
         # if here, have matching line
         if follow_includes and s.lower().startswith("include"):
             vals = _rdinclude(fiter, s, rdcards, kwargs)
-        elif s.find(",") > -1:
+        elif _proc_line(s).find(",") > -1:
             vals = [_rdcomma(fiter, s, " +,", blank, tolist, keep_name)]
         else:
             s = s[:72].rstrip()
